@@ -15,7 +15,8 @@ RULE = ("identities drawn over the whole domain (vendor / product-type ids 0..65
         "get_module_info(slot), LogixDriver.get_plc_info (UCMM for Micro800, Unconnected Send otherwise) and discover/_broadcast_discover "
         "with 0..5 UDP replies (every third scenario: ListIdentity replies carry a second, unknown item after the identity item); get_plc_info() again after "
         "get_module_info(neighbour slot) in a rack whose modules differ; in 60 % of the rack scenarios a communication module answers ListIdentity and the controller sits behind it "
-        "(info / get_plc_info describe the controller); identity dicts with shuffled key order; every returned field is compared with the configured identity; ModuleIdentityObject.decode(encode(d)) == d. "
+        "(info / get_plc_info describe the controller); identity dicts with shuffled key order; LogixDriver.open() + get_plc_info + _list_identity for every value 0..255 of the first status byte "
+        "(a third with the addresses 0.0.0.0 / 255.255.255.255 / 0.0.0.1); a quarter of the devices append the optional Identity attributes 8-10 after the name; every returned field is compared with the configured identity; ModuleIdentityObject.decode(encode(d)) == d. "
         "distinct = (entry point, vendor known?, type known?, serial nibble class, name length class) evaluated")
 ASSUMPTIONS = [
     "vendor / product-type texts: the ODVA lists as shipped at the pinned commit (vlib/data/identity_tables.json, 1457 vendors / 41 device types); ids added later take the library's text; 'UNKNOWN' otherwise",
@@ -194,6 +195,35 @@ def run(ctx):
             b.close()
         except ScenarioDead:
             continue
+
+    # ---- every value of the first status byte (the one the library derives `keyswitch` from) through LogixDriver.open(): whatever the
+    # controller reports there - run, program, faulted, values no table lists - the identity comes back as encoded and open() works
+    try:
+        b = Bench(rng)
+        for s0 in range(256):
+            if not ctx.mine(s0):
+                continue
+            cid = devices.random_identity(rng, vend_ids, type_ids)
+            cid.status = bytes([s0, rng.choice([0x10, 0x11, 0x20, 0x30, 0x31, 0x00, 0xFF, rng.randrange(256)])])
+            if rng.random() < 0.3:
+                cid.ip = rng.choice(["0.0.0.0", "255.255.255.255", "0.0.0.1"])
+            ctl = devices.ControllerDevice(cid, rng, b.log)
+            b.set_target(rt.RefTarget(rng, front=ctl, routes={((1, 0),): ctl}, log=b.log))
+            ld = p.LogixDriver(b.host, init_tags=False)
+            st, out = b.call("open", ld.open)
+            res.ev()
+            res.seen("status-byte-sweep", s0)
+            if st != "ok" or not out:
+                res.violation("logix-open-failed", f"LogixDriver.open() -> {out!r:.200} with identity status bytes {cid.status.hex()}", {"identity": expected(cid)})
+                continue
+            st, got = b.call("get_plc_info", ld.get_plc_info)
+            compare("get_plc_info(status sweep)", got, cid, extra_ok=("keyswitch",))
+            st, got = b.call("_list_identity", ld._list_identity)
+            compare("_list_identity(status sweep)", got, cid, True)
+            b.call("close", ld.close)
+        b.close()
+    except ScenarioDead:
+        pass
 
     # ---- every vendor id and every product-type id 0..65535 through both identity decoders (no network needed) ---------------
     base = rt.Identity()
